@@ -356,6 +356,44 @@ def run(chk):
         return True, "", [w.loc, a.loc, inloop[0].loc]
     chk.ob("C10.R3:remainder", "the cursor advances only after a successful write; a failed write returns the batch with the failed event still first", r3)
 
+    def r3b():
+        """A batch is given up for good (BatchError::no_retry) only where the batcher could not usefully retry it: after every event was written,
+        on the failed flush / sync.  A failure *before* that point - listing or creating the directory, opening or creating the file, a write -
+        hands the batch back (BatchError::retry(err, batch)); dropping it there loses events that were never written, in particular the
+        batch that is being written again after a mid-write failure (its poisoned file forces a new one to be created)."""
+        cb = main_closure(P)
+        fl = [c for c in cb.calls(normal_only=True) if c.callee.get("name") == "flush"]
+        if not fl:
+            raise mir.AnchorMissing("the flush call of Worker::on_batch")
+        ev = []
+        for x in [cb] + P.closures_of(cb):
+            for c in x.calls(normal_only=True):
+                pth = c.callee.get("path") or ""
+                if not re.search(r"BatchError::<.*>::(no_retry|retry)$", pth):
+                    continue
+                if pth.endswith("::retry"):
+                    if common.root_param(P, x, x.origin(c.args[1])) not in (2,) and x.origin(c.args[1])[0] not in ("capture", "param", "local"):
+                        return False, "BatchError::retry is given %s, not the batch" % o_str(x.origin(c.args[1])), [], c.loc
+                    ev.append(c.loc)
+                    continue
+                # no_retry: only in the map_err of the flush / sync result, or on a path that already passed the flush
+                if x is cb:
+                    if not any(cb.dominates(f.bb, c.bb) for f in fl):
+                        return False, ("the worker gives a batch up for good (BatchError::no_retry at %s) before its events were written and flushed: "
+                                       "the batcher drops it instead of retrying, and a batch being re-written after a mid-write failure is lost" % c.loc), [], c.loc
+                else:
+                    # a closure: it must be the argument of map_err on the flush()/sync_all() result
+                    used = [m for m in cb.calls(normal_only=True) if m.callee.get("name") == "map_err" and len(m.args) > 1 and
+                            (lambda o: o[0] == "agg" and o[1].get("def") == x.key)(cb.origin(m.args[1]))]
+                    if not used or not all(mir.o_is_call(cb.origin(m.args[0]), name="flush") or mir.o_is_call(cb.origin(m.args[0]), name="sync_all") or
+                                           any(cb.dominates(f.bb, m.bb) for f in fl) for m in used):
+                        return False, ("the worker gives a batch up for good (BatchError::no_retry in %s) for a failure other than the final flush / sync" % x.key), [], c.loc
+                ev.append(c.loc)
+        if len(ev) < 4:
+            raise mir.AnchorMissing("BatchError constructors in Worker::on_batch (found %d)" % len(ev))
+        return True, "", ev
+    chk.ob("C10.R3:early-failures-keep-the-batch", "only a failed flush / sync gives a batch up; every earlier failure hands the batch back for retry", r3b)
+
     write_event_rule(chk, P, "C10.R4:write_event")
 
     def ctor_flag(fn, want):
@@ -438,6 +476,53 @@ def run(chk):
             return True, "", [ew[0].loc, snd[0].loc]
         return False, "FileSetInner::emit does not reach Sender::send", [], b.span
     chk.ob("C10.R6:separator", "every queued record ends with the separator", separator_at_emit)
+
+    def buffer_holds_one_event():
+        """The record queued for an event is the buffer the writer filled for *that* event - and the buffer is empty when the writer gets it: it is
+        built fresh in this activation (FileBuf::new), or, if it is a reused one, it is emptied on every path before the writer sees it or on
+        every path after the writer ran (also the failing one).  Otherwise the bytes a failed writer left behind prefix the next event of that
+        thread: one record holding parts of two events."""
+        b = P.impl_method("emit_core::emitter::Emitter", "emit_file::FileSetInner", "emit")
+        ws = [c for c in b.calls(normal_only=True) if c.callee.get("name") in ("call", "call_mut", "call_once") and
+              (mir.o_field_path(b.origin(c.args[0]))[1] or [None])[-1] == "writer"]
+        if len(ws) != 1:
+            raise mir.AnchorMissing("the call of the configured writer in FileSetInner::emit (found %d)" % len(ws))
+        w = ws[0]
+        tup = b.origin(w.args[1])
+        bo = tup[2][0] if tup[0] == "agg" and tup[2] else tup
+        while bo[0] in ("ref", "deref", "copy", "field"):
+            bo = bo[1]
+        snd = [c for c in b.calls(normal_only=True) if (c.callee.get("path") or "").startswith("emit_batcher::Sender::<") and c.callee.get("name") == "send"]
+        if len(snd) != 1:
+            raise mir.AnchorMissing("Sender::send in FileSetInner::emit")
+        if bo[0] != "call":
+            return False, "the writer is given %s as its buffer" % o_str(bo), [], w.loc
+        src = bo[1]
+        if ("callsite", src.bb) not in common.roots(b.origin(snd[0].args[1])):
+            return False, "what is queued (%s) is not the buffer the writer filled" % o_str(b.origin(snd[0].args[1])), [], snd[0].loc
+        fresh = (src.callee.get("path") or "") in ("emit_file::FileBuf::new",) or \
+            (src.callee.get("name") in ("new", "default", "with_capacity") and not src.args and "FileBuf" in (src.callee.get("full") or ""))
+        if fresh and not b.in_cycle(src.bb):
+            return True, "", [src.loc, w.loc, snd[0].loc]
+        clears = set()
+        for c in b.calls(normal_only=True):
+            if c.callee.get("name") in ("clear", "truncate") and ("callsite", src.bb) in common.roots(b.origin(c.args[0], through_calls=("deref_mut", "deref"))):
+                if c.callee.get("name") == "truncate" and mir.o_const_value(b.origin(c.args[1])) != 0:
+                    continue
+                clears.add(c.bb)
+        before = bool(clears) and b.must_pass(clears, start=src.bb, ends={w.bb})
+        after = bool(clears) and b.must_pass(clears, start=w.bb)
+        if not (before or after):
+            return False, ("the buffer handed to the writer comes from %s (not a fresh FileBuf) and is not emptied on every path - neither before the writer "
+                           "gets it nor after it ran (the path on which the writer failed keeps its partial output): the next event formatted into "
+                           "it is queued with another event's bytes in front" % o_str(bo)), [], w.loc
+        return True, "", [src.loc, w.loc, snd[0].loc]
+    def newest_kept():
+        from . import c11
+        return c11.order_agreement(P)
+    chk.ob("C10.R9:retention-spares-the-newest", "retention removes from the oldest end of the listing: the file holding the batch just acknowledged is never the one deleted",
+           newest_kept)
+    chk.ob("C10.R6:buffer-holds-one-event", "the writer's buffer is empty when it gets it and is what is queued", buffer_holds_one_event)
 
     def advance():
         b = P.body("emit_file::EventBatch::advance")
